@@ -51,6 +51,21 @@ def replay_known(ctx):
             got = out[1] if out[0] in ('val', 'rt') else out[0]
             if got != w["property_holds_if"]:
                 ctx.known_hits[k["key"]] = k["what"]
+        elif w.get("kind") == "hashseed":
+            # the witness program gives different results under different PYTHONHASHSEED values
+            import os
+            import subprocess
+            import sys
+            code = ("import sys; sys.path.insert(0, %r)\n"
+                    "from ckl.interpreter import Interpreter\n"
+                    "print(str(Interpreter(True, True).interpret(%r, 'w')))\n") % (os.path.join(core.REPO, "src"), w["src"])
+            outs = set()
+            for sd in range(12):
+                env = dict(os.environ, PYTHONHASHSEED=str(sd))
+                r = subprocess.run([sys.executable, "-c", code], capture_output=True, text=True, env=env, timeout=120)
+                outs.add(r.stdout.strip())
+            if len(outs) > 1:
+                ctx.known_hits[k["key"]] = k["what"]
 
 
 def generic_replay(ctx, payload):
